@@ -167,6 +167,9 @@ BUFR_Template *bufr_create_template
       }
 
    tmplt               = (BUFR_Template *)malloc(sizeof(BUFR_Template));
+#ifdef LIBECBUFR_VERIF
+   bufr_verif_live[BUFR_VK_TEMPLATE]++;
+#endif
    tmplt->gabarit      = NULL;
    tmplt->edition      = edition;
    tmplt->flags        = 0;
@@ -497,6 +500,9 @@ void bufr_free_template ( BUFR_Template *tmplt )
       }
 
    free( tmplt );
+#ifdef LIBECBUFR_VERIF
+   bufr_verif_live[BUFR_VK_TEMPLATE]--;
+#endif
    }
 
 /**
